@@ -33,6 +33,11 @@ func (i *kvIndex) UpdateIndex(oplog ipfslog.Log, _ []ipfslog.Entry) error {
 
 	handled := map[string]struct{}{}
 
+	// the view is rebuilt from what the log lists NOW: patching the map the
+	// previous update left would keep the keys of entries the log no longer
+	// lists (a Load with a limit trims it)
+	index := map[string][]byte{}
+
 	for idx := range entries {
 		item, err := operation.ParseOperation(entries[size-idx-1])
 		if err != nil {
@@ -57,12 +62,14 @@ func (i *kvIndex) UpdateIndex(oplog ipfslog.Log, _ []ipfslog.Entry) error {
 			handled[*item.GetKey()] = struct{}{}
 
 			if item.GetOperation() == "PUT" {
-				i.index[*item.GetKey()] = item.GetValue()
+				index[*item.GetKey()] = item.GetValue()
 			} else if item.GetOperation() == "DEL" {
-				delete(i.index, *item.GetKey())
+				delete(index, *item.GetKey())
 			}
 		}
 	}
+
+	i.index = index
 
 	return nil
 }
